@@ -91,6 +91,42 @@ def strategy(tier):
     return _case(tier == "thorough")
 
 
+def grid(tier):
+    """Deterministic histories on one fixed trimer: every kind of call repeated after every other kind (X, Y, X), so
+    that interference between any two kinds of call is looked for at every seed, and the refinement / pure-dephasing
+    sequences on one propagator object."""
+    spec = {"E": [9000, 9150, 9320], "J": [[0, 80, 25], [80, 0, -120], [25, -120, 0]],
+            "d": [[1.0, 0.0, 0.0], [0.0, 1.0, 0.0], [0.6, 0.0, 0.8]], "T": 200,
+            "bath": [{"ftype": "OverdampedBrownian", "reorg": 30 + 10 * i, "cortime": 30 + 5 * i, "matsubara": 10}
+                     for i in range(3)],
+            "time": [0.0, 30, 1.0]}
+    A = [[[[1, 0]], [[2, 1]], [[1, -1]], [[0, 2]]], [[[0, 0]], [[-1, -3]], [[3, -2]], [[1, -3]]]]
+    T0 = {"op": "tensor", "theory": 0, "slot": 0}
+
+    def rdm(mode, nref, pd=None, method="short-exp"):
+        return {"op": "rdm", "slot": 0, "rho": 0, "method": method, "mode": mode, "nref": nref, "pd": pd}
+    seqs = []
+    for pd in (None, "Lorentzian", "Gaussian"):
+        # one propagator object: default, refined through the setter, refined through the argument, refused, default
+        seqs.append([T0, rdm("default", 1, pd), rdm("set", 5, pd), rdm("default", 1, pd), rdm("set", 1, pd),
+                     rdm("arg", 2, pd), rdm("default", 1, pd),
+                     {"op": "rdm_refused", "slot": 0, "rho": 1, "nref": 5}, rdm("default", 1, pd), rdm("set", 2, pd)])
+    kinds = [rdm("default", 1), rdm("arg", 2, "Lorentzian"), {"op": "sv", "psi": 0, "L": 4, "hfce": False},
+             {"op": "rdm_shifted", "rho": 1}, {"op": "pop", "p": 0}, {"op": "popmat", "corr": 0},
+             {"op": "rdm_refused", "slot": 0, "rho": 0, "nref": 2}, {"op": "look", "what": "rwa_data", "units": "1/cm"},
+             {"op": "eso", "slot": 0, "dense": 2}, {"op": "elf"}, {"op": "lindprop", "form": 0, "ctx": True, "rho": 0},
+             {"op": "tensor", "theory": 7, "slot": 1}, {"op": "tensor", "theory": 4, "slot": 1},
+             {"op": "heom", "depth": 1, "rho": 0}]
+    if tier == "quick":
+        kinds = kinds[:12]
+    for i, x in enumerate(kinds):
+        for j, y in enumerate(kinds):
+            if i != j:
+                seqs.append([T0, dict(x), dict(y), dict(x)])
+    for ops in seqs:
+        yield {"spec": spec, "ops": ops, "A": A}
+
+
 def _fp_array(a):
     return numpy.array(a, copy=True)
 
